@@ -805,7 +805,8 @@ func (m *model) classify(in input) string {
 	idOK := func() bool { return in.id == "echo" }
 	switch m.stage {
 	case stAwaitNew:
-		if in.state == "new" && in.id == "" {
+		// (before the server's first envelope there is no id to echo: "echo" sends none)
+		if in.state == "new" && (in.id == "" || in.id == "echo") {
 			return "valid"
 		}
 		return "violation"
